@@ -90,8 +90,10 @@ Section Footnotes.
         (map_insert (mkFdef (fold (def_name d)) None idx (pres (def_name d)) 0) m)
     end.
 
-  (* find_footnote_references: whole tree in document order, definitions included *)
-  Fixpoint refs (n : node) (st : fmap * N) : node * (fmap * N) :=
+  (* find_footnote_references: whole tree in document order, definitions included.  Since fix C15-d the walk does not
+     normalise the stored name again, so `pres` no longer occurs in it; the `using` attribute keeps `refs fold pres` the
+     interface every proof file is written against. *)
+  #[using="fold pres"] Fixpoint refs (n : node) (st : fmap * N) : node * (fmap * N) :=
     match n with
     | Node v sp ch =>
       match v with
@@ -105,7 +107,7 @@ Section Footnotes.
             end in
           let total := (f_total f + 1)%N in
           let f' := mkFdef (f_key f) fix_ (f_idx f) (f_name f) total in
-          (Node (FootnoteReference (pres (f_name f)) total ix) sp ch, (map_set f' (fst st), ixp))
+          (Node (FootnoteReference (f_name f) total ix) sp ch, (map_set f' (fst st), ixp))
         | None =>
           (Node (Text ([x5b; x5e] ++ name ++ [x5d])) sp ch, st)
         end
